@@ -14,6 +14,7 @@ from typing import Dict, List, Optional, Set, Tuple
 
 from sa.cfg import CFG, forward, witness_path
 from sa.model import AnalysisError, Function, Repo, calls_in, dotted, norm, own_nodes
+from sa.match import Locals, match
 from sa.report import Report
 from sa.resolve import CallGraph
 
@@ -303,8 +304,7 @@ def run(repo: Repo, rep: Report, tier: str) -> None:
     ucd = repo.module(UCD)
     enter = ucd.func(ENTER)
     cfg = CFG(enter.node)
-    inc = [n.id for n in cfg.nodes if isinstance(n.ast, ast.AugAssign) and isinstance(n.ast.op, ast.Add)
-           and isinstance(n.ast.target, ast.Attribute) and n.ast.target.attr == "recursion_depth"]
+    inc = [n.id for n in cfg.nodes if n.kind == "stmt" and n.ast is not None and match("ANY_c.recursion_depth += 1", n.ast) is not None]
     chk = [n.id for n in cfg.nodes if n.ast is not None and n.kind == "stmt" and
            any(_callee_attr(c) == "unified_cycle_check" for c in calls_in(n.ast))]
     dom = cfg.dominators()
@@ -331,9 +331,15 @@ def run(repo: Repo, rep: Report, tier: str) -> None:
     check = ucd.func("unified_cycle_check")
     cfg = CFG(check.node)
     dom = cfg.dominators()
-    depth_tests = [n for n in cfg.nodes if n.kind == "test" and isinstance(n.ast, ast.Compare)
-                   and any(isinstance(x, ast.Attribute) and x.attr == "recursion_depth" for x in ast.walk(n.ast.left))
-                   and isinstance(n.ast.ops[0], (ast.Gt, ast.GtE))]
+    def _depth_limit(t: ast.AST) -> Optional[ast.AST]:
+        """`<ctx>.recursion_depth > L`, `>= L`, `L < <ctx>.recursion_depth`, `L <= ...` -> L"""
+        for pt in ("ANY_c.recursion_depth > ANY_l", "ANY_c.recursion_depth >= ANY_l"):
+            m = match(pt, t)
+            if m is not None and not any(isinstance(x, ast.Attribute) and x.attr == "recursion_depth" for x in ast.walk(m["ANY_l"])):
+                return m["ANY_l"]
+        return None
+
+    depth_tests = [n for n in cfg.nodes if n.kind == "test" and _depth_limit(n.ast) is not None]
     rets_continue = [n for n in cfg.nodes if isinstance(n.ast, ast.Return) and "CONTINUE_PARSING" in norm(n.ast)]
     rep.count("R8.4:continue_returns", len(rets_continue))
     rep.require(len(rets_continue) >= 1, "R8.4: unified_cycle_check has no CONTINUE_PARSING return (anchor vanished)")
@@ -355,30 +361,30 @@ def run(repo: Repo, rep: Report, tier: str) -> None:
             rep.ok("R8.4", f"{ucd.relpath}:unified_cycle_check depth-exceeded branch", "the `recursion_depth > max_depth` branch returns a placeholder action on every path", check.loc(T.ast))
         for r in rets_continue:
             guards = [cfg.nodes[d] for d in dom[r.id] if cfg.nodes[d].kind == "test"]
-            anon = any("schema_name is None" in norm(g.ast) for g in guards) and T.id not in dom[r.id]
+            CL = Locals(check.node)
+            anon = any((m := match("VAR_p is None", g.ast)) is not None and CL.is_param(m["VAR_p"]) for g in guards) and T.id not in dom[r.id]
             sub = f"{ucd.relpath}:unified_cycle_check return L{r.lineno}"
             if T.id in dom[r.id]:
                 rep.ok("R8.4", sub, "depth test dominates this CONTINUE_PARSING return", check.loc(r.ast))
             elif anon:
                 rep.ok("R8.4", sub, "anonymous schema (name is None): bounded by document nesting, not by references (enumerated exception)", check.loc(r.ast))
             else:
-                rep.violation("R8.4", sub, f"{check.fq}|continue-without-depth-test|{norm(r.ast)}",
+                rep.violation("R8.4", sub, f"{check.fq}|continue-without-depth-test",
                               "a CONTINUE_PARSING return is reachable without passing the depth test", check.loc(r.ast))
         # the limit compared against must come from max_depth / PYOPENAPI_MAX_DEPTH
-        cmp_names = {x.id for x in ast.walk(T.ast.comparators[0]) if isinstance(x, ast.Name)} | {
-            x.attr for x in ast.walk(T.ast.comparators[0]) if isinstance(x, ast.Attribute)}
-        if cmp_names & {"max_depth"}:
+        lim = Locals(check.node).inline(_depth_limit(T.ast))  # type: ignore[arg-type]
+        from_config = any(isinstance(x, ast.Attribute) and x.attr == "max_depth" for x in ast.walk(lim)) or any(
+            isinstance(x, ast.Constant) and x.value == "PYOPENAPI_MAX_DEPTH" for x in ast.walk(lim))
+        if from_config:
             rep.ok("R8.4", f"{ucd.relpath}:unified_cycle_check limit source", "compared against max_depth (env PYOPENAPI_MAX_DEPTH / context.max_depth)", check.loc(T.ast))
         else:
-            rep.violation("R8.4", f"{ucd.relpath}:unified_cycle_check limit source", f"{check.fq}|limit-source|{norm(T.ast)}",
+            rep.violation("R8.4", f"{ucd.relpath}:unified_cycle_check limit source", f"{check.fq}|limit-source",
                           "depth is not compared against the configured max_depth", check.loc(T.ast))
 
     # ---------------------------------------------------------------- R8.5 exit restores state
     ex = ucd.func(EXIT)
     cfg = CFG(ex.node)
-    dec = {n.id for n in cfg.nodes if isinstance(n.ast, ast.AugAssign) and isinstance(n.ast.op, ast.Sub)
-           and isinstance(n.ast.target, ast.Attribute) and n.ast.target.attr == "recursion_depth"
-           and isinstance(n.ast.value, ast.Constant) and n.ast.value.value == 1}
+    dec = {n.id for n in cfg.nodes if n.kind == "stmt" and n.ast is not None and match("ANY_c.recursion_depth -= 1", n.ast) is not None}
     # allowed bypass: the false edge of a test on recursion_depth itself (already 0)
     bypass_tests = {n.id for n in cfg.nodes if n.kind == "test" and "recursion_depth" in norm(n.ast)}
     saved = {t: list(cfg.succ[t]) for t in bypass_tests}
@@ -421,15 +427,16 @@ def run(repo: Repo, rep: Report, tier: str) -> None:
         if isinstance(n.ast, ast.Raise):
             dom = cfg.dominators() if not raise_nodes else dom
             guards = [cfg.nodes[d] for d in dom[n.id] if cfg.nodes[d].kind in ("test", "iter")]
-            if any("parsed_schemas" in norm(g.ast) and "not in" in norm(g.ast) for g in guards) and any(
-                g.kind == "iter" and "raw_schemas" in norm(g.ast) for g in guards):
+            if any(g.kind == "test" and any(isinstance(x, ast.Compare) and isinstance(x.ops[0], (ast.In, ast.NotIn)) and any(
+                    isinstance(y, ast.Attribute) and y.attr == "parsed_schemas" for y in ast.walk(x.comparators[0])) for x in ast.walk(g.ast)) for g in guards) and any(
+                g.kind == "iter" for g in guards):
                 raise_nodes.append(n)
     rep.require(bool(parse_nodes), "R8.6: build_schemas no longer calls _parse_schema (anchor vanished)")
     ok6 = False
     if raise_nodes:
         # the checking loop's header post-dominates the parse loop: every path from a parse call to the exit visits it
         dom = cfg.dominators()
-        hdrs = {d for d in dom[raise_nodes[0].id] if cfg.nodes[d].kind == "iter" and "raw_schemas" in norm(cfg.nodes[d].ast)}
+        hdrs = {d for d in dom[raise_nodes[0].id] if cfg.nodes[d].kind == "iter"}
         ok6 = all(cfg.must_pass(pn, hdrs) is None for pn in parse_nodes) and cfg.must_pass(cfg.entry, hdrs) is None
     if ok6:
         rep.ok("R8.6", f"{bs.module.relpath}:build_schemas post-condition", "every path to the return runs the `not in parsed_schemas -> raise` loop over raw_schemas", bs.loc(raise_nodes[0].ast))
